@@ -397,3 +397,162 @@ func TestVfC06Reuse(t *testing.T) {
 		})
 	})
 }
+
+// TestVfC06RespTimeout covers the one timing the state machine cannot afford to visit often: the
+// transport's own response timeout (6 s). The server stays silent past it, replies late (before or after
+// the next query arrives, whole or in chunks), and further exchanges follow.
+func TestVfC06RespTimeout(t *testing.T) {
+	st := vfkit.Stats("TestVfC06RespTimeout", "a non-pipelined connection whose server stays silent beyond the transport's 6 s response timeout for exchange 1 (no caller deadline), then sends the late reply before / after 1-3 further exchanges start, whole or in two chunks; oracle: the server never sees a query on a connection whose previous reply is outstanding, and every returned message answers the exchange's own query; non-trivial = every case")
+	defer vfkit.Flush()
+	rapid.Check(t, func(t *rapid.T) {
+		srv := &vfServerSide{}
+		tr := transport.NewReuseConnTransport(transport.ReuseConnOpts{DialContext: srv.dial, IdleTimeout: time.Hour})
+		defer tr.Close()
+		lateFirst := rapid.Bool().Draw(t, "lateReplyBeforeNextQuery")
+		chunked := rapid.Bool().Draw(t, "chunked")
+		followers := rapid.IntRange(1, 3).Draw(t, "followers")
+		warm := rapid.IntRange(0, 2).Draw(t, "warmConnection") == 0
+
+		type answer struct {
+			gotMsg bool
+			tok    uint32
+			id     uint16
+			err    error
+		}
+		run := func(id uint16, tok uint32) chan answer {
+			ch := make(chan answer, 1)
+			go func() {
+				m, err := tr.ExchangeContext(context.Background(), vfQuery(id, tok))
+				a := answer{err: err}
+				if m != nil {
+					a.gotMsg = true
+					a.id = m.Header.ID
+					a.tok, _ = vfReplyToken(m)
+					dnsmsg.ReleaseMsg(m)
+				}
+				ch <- a
+			}()
+			return ch
+		}
+		readers := map[int]*vfMsgReader{}
+		type seenQ struct {
+			conn int
+			wid  uint16
+			tok  uint32
+		}
+		var seen []seenQ
+		outstanding := map[int]bool{}
+		poll := func() {
+			for _, c := range srv.snapshot() {
+				rd := readers[c.ID]
+				if rd == nil {
+					rd = &vfMsgReader{c: c}
+					readers[c.ID] = rd
+				}
+				for _, m := range rd.poll() {
+					wid, tok, err := vfParseQuery(m)
+					if err != nil {
+						t.Fatalf("%v", err)
+					}
+					if outstanding[c.ID] {
+						t.Fatalf("connection %d received the query of exchange %d while the reply to its previous query is still outstanding (the response timeout had fired for that exchange)", c.ID, tok)
+					}
+					outstanding[c.ID] = true
+					seen = append(seen, seenQ{c.ID, wid, tok})
+				}
+			}
+		}
+		waitQuery := func(tok uint32, d time.Duration) (seenQ, bool) {
+			deadline := time.Now().Add(d)
+			for {
+				poll()
+				for _, s := range seen {
+					if s.tok == tok {
+						return s, true
+					}
+				}
+				if time.Now().After(deadline) {
+					return seenQ{}, false
+				}
+				time.Sleep(time.Millisecond)
+			}
+		}
+		reply := func(s seenQ, rtok uint32, inChunks bool) {
+			f := vfFrame(vfReply(s.wid, s.tok, rtok))
+			c := srv.snapshot()[s.conn]
+			if inChunks {
+				c.Deliver(f[:len(f)/2])
+				time.Sleep(2 * time.Millisecond)
+				c.Deliver(f[len(f)/2:])
+			} else {
+				c.Deliver(f)
+			}
+			outstanding[s.conn] = false
+		}
+		check := func(a answer, tok uint32, id uint16) {
+			if a.gotMsg && (a.tok != 1000+tok || a.id != id) {
+				t.Fatalf("exchange %d (ID %d) returned the reply to exchange %d (ID %d)", tok, id, a.tok-1000, a.id)
+			}
+		}
+		if warm {
+			ch := run(7, 99)
+			q, ok := waitQuery(99, vfStall)
+			if !ok {
+				vfkit.Inconclusive("C06 timeout: warm query never written")
+			}
+			reply(q, 1099, false)
+			check(<-ch, 99, 7)
+		}
+		// exchange 1: silence beyond the response timeout
+		ch1 := run(11, 1)
+		q1, ok := waitQuery(1, vfStall)
+		if !ok {
+			vfkit.Inconclusive("C06 timeout: query 1 never written")
+		}
+		var a1 answer
+		select {
+		case a1 = <-ch1:
+		case <-time.After(16 * time.Second): // 6 s, plus 6 s more when a reused connection is retried on a fresh one
+			vfkit.Inconclusive("C06 timeout: exchange 1 did not time out within 16 s")
+		}
+		// a reused connection that timed out is retried on a new one: serve that retry silently too (it times out as well)
+		check(a1, 1, 11)
+		if lateFirst {
+			if !srv.snapshot()[q1.conn].ClientClosed() {
+				reply(q1, 1001, chunked)
+				time.Sleep(5 * time.Millisecond)
+			} else {
+				outstanding[q1.conn] = false
+			}
+		}
+		for f := 0; f < followers; f++ {
+			tok := uint32(2 + f)
+			ch := run(uint16(20+f), tok)
+			q, ok := waitQuery(tok, vfStall)
+			if !ok {
+				// the exchange may have failed without writing (allowed); it must not hang
+				select {
+				case a := <-ch:
+					check(a, tok, uint16(20+f))
+					continue
+				case <-time.After(8 * time.Second):
+					vfkit.Inconclusive("C06 timeout: follower neither wrote a query nor returned")
+				}
+			}
+			if !lateFirst && f == 0 && !srv.snapshot()[q1.conn].ClientClosed() && q.conn != q1.conn {
+				reply(q1, 1001, chunked) // the late reply arrives while the follower is waiting elsewhere
+			}
+			reply(q, 1000+tok, false)
+			select {
+			case a := <-ch:
+				check(a, tok, uint16(20+f))
+			case <-time.After(8 * time.Second):
+				vfkit.Inconclusive("C06 timeout: follower did not return after its reply")
+			}
+		}
+		poll()
+		st.Case(vfkit.Fingerprint(lateFirst, chunked, followers, warm), true, nil, func() any {
+			return map[string]any{"late_reply_before_next_query": lateFirst, "chunked": chunked, "followers": followers, "warm": warm, "connections": len(srv.snapshot())}
+		})
+	})
+}
